@@ -235,6 +235,36 @@ func init() {
 				fmt.Fprintf(out, "CASE\tC18\t%s\t%s\t1\n", sx.String(c), sx.String(obs))
 			}
 			os.Remove(path)
+			// the same file with one more entry that is not a valid key: "fails for ... invalid keys" - a key set
+			// that cannot be read as a whole must not yield a key, whichever id is asked for
+			if len(ms) >= 1 && len(ms) <= 2 && si%2 == 0 {
+				var doc map[string]any
+				if json.Unmarshal(b, &doc) == nil {
+					keysArr, _ := doc["keys"].([]any)
+					broken := sx.Pick(rng, []map[string]any{
+						{"kty": "EC", "crv": "P-521", "kid": "zz"},
+						{"kty": "OKP", "crv": "Ed25519", "kid": "zz"},
+						{"kty": "future-kty", "kid": "zz", "alg": "EdDSA"},
+						{"kty": "RSA", "kid": "zz", "e": "AQAB"},
+					})
+					if rng.Chance(50) {
+						doc["keys"] = append([]any{broken}, keysArr...)
+					} else {
+						doc["keys"] = append(keysArr, broken)
+					}
+					b2, _ := json.Marshal(doc)
+					path2 := filepath.Join(tmpdir, fmt.Sprintf("c18-%d-broken.json", si))
+					os.WriteFile(path2, b2, 0o600)
+					for _, id := range ids {
+						if k, err := jwkutil.LoadKey(path2, id); err == nil {
+							oracleFail("C18", "load-broken-set-accepted", sx.L(sx.A(string(b2)), sx.A(id)), fmt.Sprintf("the key set has an entry that is not a valid key, yet LoadKey returned key %q", k.KeyID()))
+						} else {
+							stat("C18", "load-broken-set-rejected")
+						}
+					}
+					os.Remove(path2)
+				}
+			}
 		}
 	}
 }
